@@ -163,6 +163,7 @@ def check_hall_yarbrough(ctx):
     )
     check_hy_equation(ctx, it, q, f, loop)
     check_nan_exit(ctx, q, f, loop)
+    check_attainable_tolerance(ctx, q, f, loop)
 
 
 def _nan3(expr, body, depth=0):
@@ -207,6 +208,38 @@ def _nan3(expr, body, depth=0):
                     last = n.value
         return _nan3(last, body, depth + 1) if last is not None else None
     return None
+
+
+def check_attainable_tolerance(ctx, q, f, loop):
+    """C06-i (termination, second necessary condition): the continuation test `|quantity| > tol` of an unbounded Newton
+    loop uses an absolute tolerance that floating point can meet.  The iterate (a reduced density of order 0.1 .. 1) is
+    known to no better than its spacing, ~1e-16; near convergence Newton cycles between neighbouring floats, so a
+    tolerance at or below that spacing may never be met and the routine does not return."""
+    if isinstance(loop, ast.For):
+        return
+    bounded = any(isinstance(n, (ast.Break, ast.Return, ast.Raise)) for st in loop.body for n in ast.walk(st))
+    tols = []
+    for n in ast.walk(loop.test):
+        if isinstance(n, ast.Compare) and len(n.ops) == 1 and isinstance(n.ops[0], (ast.Gt, ast.GtE, ast.Lt, ast.LtE)):
+            for side in (n.left, n.comparators[0]):
+                v = None
+                if isinstance(side, ast.Constant) and isinstance(side.value, (int, float)):
+                    v = float(side.value)
+                elif isinstance(side, ast.Attribute) and side.attr in ("eps", "epsilon", "tiny", "smallest_normal"):
+                    v = 2.3e-16
+                elif isinstance(side, ast.Name):
+                    # a named tolerance: resolve a module-level or local constant
+                    for m_ in ast.walk(ctx.P.func(q).module.tree):
+                        if isinstance(m_, ast.Assign) and len(m_.targets) == 1 and isinstance(m_.targets[0], ast.Name) and m_.targets[0].id == side.id and isinstance(m_.value, ast.Constant) and isinstance(m_.value.value, (int, float)):
+                            v = float(m_.value.value)
+                if v is not None:
+                    tols.append(v)
+    tiny = [t for t in tols if 0 <= t < 1e-13]
+    ctx.check(
+        not tiny or bounded, "C06-i", q + ":tolerance can be met", f"{f.file}:{loop.lineno}",
+        "the absolute tolerance of the unbounded Newton loop is well above the spacing of doubles near the iterate (>= 1e-13), or the loop has an iteration bound",
+        signature="tolerance " + ",".join(repr(t) for t in tiny), tolerances=tols,
+    )
 
 
 def check_nan_exit(ctx, q, f, loop):
@@ -270,10 +303,19 @@ def check_hy_equation(ctx, it, q, f, loop):
     for st in loop.body:
         if isinstance(st, ast.Assign) and len(st.targets) == 1 and isinstance(st.targets[0], ast.Name) and isinstance(st.value, ast.BinOp) and isinstance(st.value.op, ast.Sub) and isinstance(st.value.left, ast.Name) and st.value.left.id == st.targets[0].id and isinstance(st.value.right, ast.BinOp) and isinstance(st.value.right.op, ast.Div):
             upd = st
+    quot = None
+    if upd is None:
+        # y = y - step  with  step = F / DF  assigned earlier in the loop body
+        for st in loop.body:
+            if isinstance(st, ast.Assign) and len(st.targets) == 1 and isinstance(st.targets[0], ast.Name) and isinstance(st.value, ast.BinOp) and isinstance(st.value.op, ast.Sub) and isinstance(st.value.left, ast.Name) and st.value.left.id == st.targets[0].id and isinstance(st.value.right, ast.Name):
+                for s2 in loop.body:
+                    if isinstance(s2, ast.Assign) and len(s2.targets) == 1 and isinstance(s2.targets[0], ast.Name) and s2.targets[0].id == st.value.right.id and isinstance(s2.value, ast.BinOp) and isinstance(s2.value.op, ast.Div):
+                        upd, quot = st, s2.value
     if upd is None or upd.targets[0].id != "y" and False:
         raise AnalysisError(f"{q}: Newton update of the form y = y - f / df not found")
     yname = upd.targets[0].id
-    num, den = upd.value.right.left, upd.value.right.right
+    quot = quot if quot is not None else upd.value.right
+    num, den = quot.left, quot.right
     if not (isinstance(num, ast.Name) and isinstance(den, ast.Name) and isinstance(env.get(num.id), Num) and isinstance(env.get(den.id), Num)):
         raise AnalysisError(f"{q}: residual / derivative of the Newton update are not named locals")
     F_, D_ = env[num.id].nf, env[den.id].nf
